@@ -344,6 +344,14 @@ def unresolved_names(diags):
             mm = re.search(r'no (?:method|function or associated item|associated function or constant|associated item) named `(\w+)` found', msg)
         if mm and not mm.group(1).startswith('vx_'):
             out.add(mm.group(1))
+        if code == 'E0424':
+            # `self.helper(..)` left in a block (a method of the enclosing type that the block's substitutions do not name):
+            # the helper's name is taken from the source line the error points at
+            for sp in d.get('spans', []):
+                for t in sp.get('text', []):
+                    for m2 in re.finditer(r'\bself\s*\.\s*([A-Za-z_]\w*)\s*\(', t.get('text', '')):
+                        if not m2.group(1).startswith('vx_'):
+                            out.add(m2.group(1))
     return out
 
 
